@@ -12,6 +12,18 @@ CLAIMED = {
         technique="static analysis: constant-table verification over rustc-evaluated consts (rustc_private driver)"),
 }
 
+CLAIMED["C15"] = dict(
+    cat="proof", ref="DESIGN.md §3 C15",
+    text="R1: all 477 rows of Table 2 and the P1 table checked exhaustively on the compiler-evaluated constants "
+         "(K' increasing and ending at 56403, S and W prime, P1 = smallest prime >= P, B >= 1, P >= H >= 2, L < 65536). "
+         "R2: the lookup functions match the 'first row with K' >= k' scan schema, which with R1 covers every K in 0..=56403, "
+         "and the exhaustion lemma makes their unreachable!() dead. R3: abstract interpretation with symbolic intervals "
+         "proves the tuple ranges for all (K', X) and discharges every overflow/bounds/division assert, explicit panic and "
+         "narrowing cast in the tuple/Enc/ESI cone, separately for overflow-checked and optimised builds.",
+    note="Assumes rustc's MIR for the installed nightly, the library models in sa/models.py, K <= 56403 as struct invariant of "
+         "SourceBlockEncoder and K+s+n <= 2^24 (the property's own domain). Tuple == RFC Tuple value-for-value is C04's template rule.",
+    technique="static analysis: constant-table verification + MIR scan-schema matching + abstract interpretation (symbolic intervals) over rustc MIR")
+
 NOT_APPLICABLE = {
     "C03": "probability over random erasure patterns; no clause of it is visible in the shape of the code",
     "C06": "invertibility of 477 concrete matrices and plan-replay equality are run-time linear algebra; no sound structural proxy",
@@ -45,7 +57,7 @@ def main():
             "guard": "raptorq_verif",
             "enable": "none needed: the rustc_private driver reads private items, cfg'd code and constants directly; no hook code exists in /repo",
             "baseline_off_cmd": "cd /repo && cargo test --workspace --no-fail-fast --offline",
-            "source_commits": [],
+            "source_commits": ["414d620 fix: Rand must not overflow when adding the stream index to y"],
             "add_only": True,
         },
         "engines": [
